@@ -29,6 +29,7 @@ type c02Case struct {
 	Inbound   bool   `json:"inbound"`
 	Hold      int    `json:"local_hold"`
 	Eager     bool   `json:"eager"`
+	Fin       bool   `json:"fin_after_open,omitempty"` // the remote half-closes right behind its OPEN
 	Body      string `json:"body_hex"`
 	OpenNotif string `json:"open_notif_hex,omitempty"` // code,sub,data returned by OnOpenMessage
 }
@@ -347,6 +348,9 @@ func c02Run(cs c02Case, trace bool) (rule, sig, msg string, class refmodel.Class
 				}
 			}
 			r.Send(wire.Frame(wire.TypeOpen, body))
+			if cs.Fin {
+				r.C.CloseWrite()
+			}
 			if cs.Eager {
 				if _, ok := r.Expect(wire.TypeOpen); !ok {
 					return
@@ -360,7 +364,9 @@ func c02Run(cs c02Case, trace bool) (rule, sig, msg string, class refmodel.Class
 				switch {
 				case m.Type == wire.TypeKeepalive && !gotKA:
 					gotKA = true
-					r.Send(wire.Keepalive())
+					if !cs.Fin {
+						r.Send(wire.Keepalive())
+					}
 				case m.Type == wire.TypeNotification:
 					notifs = append(notifs, m)
 				case m.Type == wire.TypeUpdate && gotKA && !gotMarker:
@@ -433,7 +439,9 @@ func c02Run(cs c02Case, trace bool) (rule, sig, msg string, class refmodel.Class
 				}
 			}
 		}
-		if nEst != 1 || !gotMarker {
+		if cs.Fin {
+			// the remote is gone: the reply to the OPEN is all that can be judged
+		} else if nEst != 1 || !gotMarker {
 			return fail("not-established", fmt.Sprintf("session not Established after the remote's KEEPALIVE (OnEstablished=%d marker=%v)", nEst, gotMarker))
 		}
 		if len(others) > 0 {
@@ -607,6 +615,9 @@ func c02Check(c *harness.Ctx) {
 					}
 				} else if bi%5 == 1 {
 					cs.Hold = 0
+				}
+				if bi%7 == 3 {
+					cs.Fin = true // the OPEN arrived before the FIN and must be judged all the same
 				}
 				rule, sig, msg, class, rep := c02Run(cs, false)
 				switch class {
